@@ -699,6 +699,11 @@ def _e3_items(ctx):
     # still running: their requests and completions before the restart / while detached / after the
     # re-definition / after the creator's second completion
     items += [("deferplan", 10000 * ctx.seed + i, 0) for i in range(nd)]
+    # an OPTIONAL producer two levels below a sub-plan that runs twice in one build (three levels of
+    # provenance); its only consumer is defined by a step of another branch before the restart / inside the
+    # window in which the producer is detached (with a free job slot: the job loop polls the scheduler in
+    # between) / after the re-definition (seeded C02-r5: Step.reattach flags)
+    items += [("optbelow", 10000 * ctx.seed + i, 0) for i in range(ctx.scale(5, 40))]
     # timing bookkeeping (start/stop stamps behind amend()'s freshness test and the post-run input
     # check): consumer reads, producer stops, unrelated steps start and stop, consumer amends
     items += [("timing", 10000 * ctx.seed + i, 0) for i in range(ctx.scale(20, 180))]
